@@ -323,6 +323,35 @@ def clause4(P, res):
                          where=call.loc, witness=[f"unrounded write {re_.loc}"] + [f"mask {m.loc}" for m in masks[:4]])
 
 
+def clause5(P, res):
+    rid = "C11-5"
+    res.rule(rid, "clear() is unconditional: every path through Cache::clear / AsyncCache::clear takes the shard write locks and clears the maps — no early return decided "
+                  "from a counter or a metric (the cost gauge reads 0 while zero-cost entries are resident, or transiently while overwrites are in flight; a clear that "
+                  "trusts it leaves values readable after it completed)")
+    n = 0
+    for b in cl.cache_bodies(P):
+        if not re.search(r"handles::(sync::Cache|futures::AsyncCache)::<K, V, H>::clear(::\{closure#0\})?$", b.id):
+            continue
+        clears = cl.map_events(b, {"clear"})
+        if not clears:
+            continue
+        n += 1
+        # the per-shard loop may run zero times; what must not exist is a path to the exit that never reaches the loop that clears
+        loop_heads = set()
+        for c in clears:
+            for e in b.calls():
+                if e.method in ("next",) and "Iterator" in e.callee and c.pos in b.pos_reach_set(e.pos) and e.pos in b.pos_reach_set(c.pos):
+                    loop_heads.add(e.pos)
+        through = loop_heads or {c.pos for c in clears}
+        if cl.all_paths_pass(b, [(0, 0)], list(through)):
+            res.holds(rid, b.id, "every path reaches the loop that clears the shard maps", where=clears[0].loc)
+        else:
+            res.violated(rid, b.id, f"a path through clear() returns without reaching the shard-map clear at {clears[0].loc}: an emptiness shortcut taken from a counter "
+                         "leaves resident values readable after clear() completed", where=f"{b.file}:{b.line}")
+    if n < 2:
+        res.unclassified(rid, "clear-bodies", f"expected the two clear() bodies, found {n}", where="rules/c11.py")
+
+
 def run(P, ctx):
     res = Result("C11")
     res.extra["explanation"] = ("Entry-guard continuity, compute exclusivity, blocking/async sibling agreement, and (by reference) the expiry gate on every read path. "
@@ -331,5 +360,6 @@ def run(P, ctx):
     clause2(P, res)
     clause3(P, res)
     clause4(P, res)
+    clause5(P, res)
     res.notes.append("the expiry gate on read paths is decided under C12-1 (and C17-1 for iterators/snapshots); it is not repeated here")
     return res
